@@ -23,6 +23,17 @@ type Case struct {
 	Objects []Comp      `json:"objects,omitempty"`
 	// WithRequest: the CalendarQuery also carries a calendar-data selection.
 	WithRequest bool `json:"with_request,omitempty"`
+	// Large: generator spec of a large-list Filter case (op "filter-large");
+	// Filter and Objects are rebuilt from it, so the witness stays small.
+	Large *LargeSpec `json:"large,omitempty"`
+}
+
+// witness is the replayable form written to journals and findings.
+func (cs Case) witness() Case {
+	if cs.Large != nil {
+		return Case{Op: "filter-large", Universe: cs.Universe, Large: cs.Large}
+	}
+	return cs
 }
 
 type outcome struct {
@@ -224,7 +235,8 @@ func features(c *fw.Ctx, f CompFilter) {
 // execMatch (under Match keys); here Filter is compared with Match object by
 // object, and with the reference wherever Match agrees with it.
 func execFilter(c *fw.Ctx, cs Case) {
-	c.Journal(cs)
+	wit := cs.witness()
+	c.Journal(wit)
 	n := len(cs.Objects)
 	cos := make([]caldav.CalendarObject, n)
 	orig := make([]caldav.CalendarObject, n)
@@ -267,11 +279,11 @@ func execFilter(c *fw.Ctx, cs Case) {
 		mod = "query"
 	}
 	if mod != "" {
-		c.Report("Filter|inputs-modified|"+mod, "Filter modified its arguments ("+mod+")", cs)
+		c.Report("Filter|inputs-modified|"+mod, "Filter modified its arguments ("+mod+")", wit)
 	}
 	if panicked {
 		// by-design panic only for nil Data, never generated
-		c.Report("Filter|panic:"+fw.PanicSite(stack), fmt.Sprintf("Filter panicked: %v", pv), cs)
+		c.Report("Filter|panic:"+fw.PanicSite(stack), fmt.Sprintf("Filter panicked: %v", pv), wit)
 		return
 	}
 
@@ -309,14 +321,14 @@ func execFilter(c *fw.Ctx, cs Case) {
 			}
 		}
 		if !ok {
-			c.Report("Filter|nil-query|not-the-whole-input", fmt.Sprintf("Filter(nil) returned %d objects / err=%v for %d inputs", len(out), err, n), cs)
+			c.Report("Filter|nil-query|not-the-whole-input", fmt.Sprintf("Filter(nil) returned %d objects / err=%v for %d inputs", len(out), err, n), wit)
 		}
 		return
 	}
 	if err != nil {
 		c.Observe("filter_function", "returned error", 1)
 		if !anyFail && allDemanded {
-			c.Report("Filter|error-although-every-Match-succeeds", "Filter failed with "+err.Error(), cs)
+			c.Report("Filter|error-although-every-Match-succeeds", "Filter failed with "+err.Error(), wit)
 		}
 		return
 	}
@@ -326,6 +338,11 @@ func execFilter(c *fw.Ctx, cs Case) {
 	}
 	c.Observe("filter_function", "judged", 1)
 	c.Observe("filter_function", fmt.Sprintf("input size %d", n), 1)
+	if cs.Large != nil {
+		c.Observe("filter_large_lists", fmt.Sprintf("n=%d judged", n), 1)
+		c.Observe("filter_large_lists", fmt.Sprintf("pattern %s / GOMAXPROCS %d", cs.Large.Pattern, cs.Large.Procs), 1)
+		c.Distinct(fmt.Sprintf("filter-large|n=%d|%s|%s|%s|procs=%d", n, cs.Large.Pattern, cs.Large.Flavor, cs.Large.Heavy, cs.Large.Procs))
+	}
 	// subsequence + identity
 	pos := 0
 	included := make([]bool, n)
@@ -339,11 +356,33 @@ func execFilter(c *fw.Ctx, cs Case) {
 			pos++
 		}
 		if !found {
-			c.Report("Filter|not-an-order-preserving-subsequence", "Filter output is not a subsequence of its input (order, duplicate or foreign object)", cs)
+			// right objects in the wrong order, or duplicates / foreign objects?
+			seen := map[string]int{}
+			for _, x := range out {
+				seen[x.Path]++
+			}
+			orderOnly := true
+			for p, k := range seen {
+				known := false
+				for i := range orig {
+					if orig[i].Path == p {
+						known = true
+						break
+					}
+				}
+				if k != 1 || !known {
+					orderOnly = false
+				}
+			}
+			if orderOnly {
+				c.Report("Filter|returned-objects-not-in-input-order", fmt.Sprintf("Filter returned %d distinct input objects, but not in input order (first out of place: %s)", len(out), o.Path), wit)
+			} else {
+				c.Report("Filter|not-an-order-preserving-subsequence", "Filter output is not a subsequence of its input (duplicate or foreign object)", wit)
+			}
 			return
 		}
 		if o != orig[pos] || dumpCal(o.Data.Component) != dumps[pos] {
-			c.Report("Filter|returned-object-differs-from-input", "Filter returned a modified object for "+o.Path, cs)
+			c.Report("Filter|returned-object-differs-from-input", "Filter returned a modified object for "+o.Path, wit)
 			return
 		}
 		included[pos] = true
@@ -353,9 +392,9 @@ func execFilter(c *fw.Ctx, cs Case) {
 		c.Observe("filter_function", "objects judged", 1)
 		if included[i] != pers[i].m {
 			if included[i] {
-				c.Report("Filter|includes-object-Match-rejects", fmt.Sprintf("Filter returned object %d although Match reports false", i), cs)
+				c.Report("Filter|includes-object-Match-rejects", fmt.Sprintf("Filter returned object %d although Match reports false", i), wit)
 			} else {
-				c.Report("Filter|drops-object-Match-accepts", fmt.Sprintf("Filter dropped object %d although Match reports true", i), cs)
+				c.Report("Filter|drops-object-Match-accepts", fmt.Sprintf("Filter dropped object %d although Match reports true", i), wit)
 			}
 			continue
 		}
@@ -380,6 +419,7 @@ func c06Run(c *fw.Ctx) {
 	runTreeUniverse(c, deal)
 	runRecurringUniverse(c, deal)
 	runRandomUniverse(c)
+	runLargeListUniverse(c, deal)
 	c.JournalDone()
 }
 
@@ -398,6 +438,10 @@ func replay(c *fw.Ctx, w json.RawMessage) {
 		if cs.Filter != nil && cs.Object != nil {
 			o := execMatch(c, cs)
 			fmt.Printf("replay: Match returned %v err=%q; reference %v; class %s\n", o.Got, o.Err, o.Want, o.Class)
+		}
+	case "filter-large":
+		if cs.Large != nil {
+			execLarge(c, *cs.Large)
 		}
 	case "filter":
 		execFilter(c, cs)
@@ -419,6 +463,7 @@ func init() {
 			"(b) filter trees: every tree of <= 3 (thorough <= 4) nodes below the VCALENDAR filter over kinds {comp, prop, param, text-match, time-range} x flags {is-not-defined, negate-condition} with names from a 3-component / 3-property / 2-parameter alphabet, against 8 fixed calendars; " +
 			"(c) recurring: FREQ=DAILY|WEEKLY x COUNT 1-4 x INTERVAL 1-2 x duration {0, 1h, 25h} (DTEND and DURATION spellings) x all ranges over a grid of instance boundaries +-30min, instances computed by the harness's own expander; " +
 			"random: seeded larger objects and filters, plus caldav.Filter over lists of objects (subsequence, identity, nil query). " +
+			"(e) large lists: caldav.Filter over lists of 16..4096 objects (lengths around every power of two and 100/500/1000) x match patterns {all, none, alternating, first-only, last-only, ends-only, random} x text / time-range queries x cheap / front-heavy / back-heavy objects, each at GOMAXPROCS 1 and >1, repeated; also nil query. " +
 			"distinct_nontrivial counts distinct abstract renderings (node kinds, flags, existence relations, order pattern of range vs. event) of cases in which a verdict was demanded.",
 		Assumptions: []string{
 			"the reference evaluator transcribes RFC 4791 9.7-9.9 as restated by the property; a verdict is demanded only when all admissible readings agree (raw vs unescaped text, octet vs ASCII-folded comparison, list item vs whole value, first vs any of several same-named properties / parameter values, empty parameter value present vs absent, names differing in case only, zone of floating and DATE values: any UTC offset -12h..+14h, property value equal to the range start)",
